@@ -181,6 +181,12 @@ func genC10(t *rapid.T) *Case {
 		default:
 			page = newG(t, rewriteProfile()).page()
 		}
+		if rapid.IntRange(0, 3).Draw(t, "svgstyle") == 0 {
+			// inline SVG / MathML with elements of their own that are named like HTML raw-text elements
+			svg := `<svg width="10" height="10"><style>.a{fill:red}</style><script>var s=1</script><circle r="4"/><title>icon</title></svg>`
+			wrap := strings.Repeat("<div>", rapid.IntRange(0, 4).Draw(t, "svgdepth"))
+			page = strings.Replace(page, "</body>", wrap+"<p>figure text "+svg+` and <math><mtext>x</mtext><style>m{}</style></math> more text.</p>`+strings.Repeat("</div>", strings.Count(wrap, "<div>"))+"</body>", 1)
+		}
 		d := c10Doc{HTML: page, Root: rapid.SampledFrom([]string{"document", "html", "sub", "detached", "document"}).Draw(t, "root")}
 		if d.Root == "sub" || d.Root == "detached" {
 			depth := rapid.IntRange(1, 4).Draw(t, "depth")
